@@ -29,7 +29,14 @@ def rid(rng):
 
 
 def rname(rng, cap=110):
-    return rb(rng, rng.choice([0, 1, 5, 30, cap, rng.randrange(cap + 1)]))
+    n = rng.choice([0, 1, 5, 30, cap, rng.randrange(cap + 1)])
+    if n >= 6 and rng.random() < 0.25:
+        # the four marker octets "cfdp" inside a name (a directory or a suffix called cfdp)
+        at = rng.randrange(0, n - 3)
+        b = rb(rng, n)
+        b[at:at + 4] = list(b"cfdp")
+        return b
+    return rb(rng, n)
 
 
 def rnd_msg(rng):
